@@ -355,3 +355,19 @@ pub assume_specification<P: core::str::pattern::Pattern>[ str::ends_with::<P> ](
     where for<'a> <P as core::str::pattern::Pattern>::Searcher<'a>: core::str::pattern::ReverseSearcher<'a>
     ensures r == (s@.len() >= pat_view(p).len() && s@.skip(s@.len() - pat_view(p).len()) == pat_view(p));
 }
+
+verus! {
+pub assume_specification<T>[ Option::<T>::or ](a: Option<T>, b: Option<T>) -> (r: Option<T>)
+    ensures r == (if a is Some { a } else { b });
+
+/// `str::trim*`: the result is a contiguous part of the argument; identity when nothing is to be trimmed
+pub uninterp spec fn trim_spec(s: Seq<char>) -> Seq<char>;
+pub open spec fn is_ws(c: char) -> bool { c == ' ' || (9 <= c as u32 <= 13) || c as u32 == 0x85 || c as u32 == 0xA0 || c as u32 >= 0x1680 }
+pub broadcast axiom fn axiom_trim(s: Seq<char>)
+    ensures
+        #[trigger] trim_spec(s).len() <= s.len(),
+        (s.len() == 0 || (!is_ws(s[0]) && !is_ws(s[s.len() - 1]))) ==> trim_spec(s) == s,
+        trim_spec(s).len() > 0 ==> !is_ws(trim_spec(s)[0]);
+pub assume_specification<'a>[ str::trim ](s: &'a str) -> (r: &'a str)
+    ensures r@ == trim_spec(s@);
+}
